@@ -1,6 +1,6 @@
 (* Property C12 — close() is final, idempotent, and leaves no worker behind.
    Only statements here; proofs are in CacheLocal.v, CacheClose.v and CacheCloseLive.v. *)
-From StrettoModel Require Import Base Metrics Sketch Bloom TinyLFU Policy Ttl Store Cache CacheProofs CacheLocal CacheInv CacheClose CacheCloseLive TinyLFUProofs CacheNoPanic CacheNoDeadlock.
+From StrettoModel Require Import Base Metrics Sketch Bloom TinyLFU Policy Ttl Store Cache CacheProofs CacheLocal CacheInv CacheClose CacheCloseLive CacheCloseAsync TinyLFUProofs CacheNoPanic CacheNoDeadlock.
 Open Scope N_scope.
 
 (* Once the closed flag is set (close() publishes it first), in ANY state: insert returns false,
@@ -88,3 +88,13 @@ Theorem C12_blocked_close_has_a_moving_partner :
   (client_of st a = KPolCloseStopOffered -> exists h st' o, cstep c st (LWorker h) = StepOk st' o).
 Proof. exact blocked_close_has_a_moving_partner. Qed.
 Print Assumptions C12_blocked_close_has_a_moving_partner.
+
+(* ... and in the async flavour no closer ever waits in a stop handshake at all (every reachable
+   state): the stop channels hold one message, at most one client is inside close(), and only that
+   closer sends, so each stop message is buffered at once. *)
+Theorem C12_async_close_never_waits :
+  forall c mc t now st,
+  c_async c = true -> reach c (cinit c mc t now) st ->
+  forall a, client_of st a <> KCloseStopOffered /\ client_of st a <> KPolCloseStopOffered.
+Proof. exact async_close_never_waits. Qed.
+Print Assumptions C12_async_close_never_waits.
